@@ -35,6 +35,7 @@ func init() {
 		"vsymstr":      primSymStr,
 		"vscannerSplit": primScannerSplit,
 		"vsolver":       primSolver,
+		"vtsBytes":      func(e *Exec, a []Value) Value { return Slice{B: []Value{}, N: 0} },
 		"vpin":          primPin,
 		"vpinInt":       primPinInt,
 		"vobserve":      primObserve,
